@@ -48,6 +48,11 @@ class MacroParser:
             return
         self.vidx = {v["name"]: v["idx"] for v in self.tt["variants"]}
         pfields = pa["variants"][0]["fields"]
+        # the token bookkeeping may live in a type of its own (`Parser { cursor: Cursor { tokens, index } }`)
+        self.holder = None
+        if len(pfields) == 1 and pfields[0]["ty"] in mac.adts and mac.adts[pfields[0]["ty"]].get("kind") == "struct":
+            self.holder = pfields[0]["ty"]
+            pfields = mac.adts[self.holder]["variants"][0]["fields"]
         self.tok_field = [i for i, f in enumerate(pfields) if "proc_macro2::TokenTree" in f["ty"] and "Option<" not in f["ty"]]
         self.idx_field = [i for i, f in enumerate(pfields) if f["ty"] == "usize"]
         # the other shape: a token iterator plus one token of lookahead
@@ -76,6 +81,12 @@ class MacroParser:
         return Adt("proc_macro2::TokenTree", self.vidx[kind], [sim.Opq(kind.lower())], kind)
 
     def parser_value(self, toks):
+        v = self._holder_value(toks)
+        if self.holder is not None:
+            return Adt("parser::Parser", 0, [Adt(self.holder, 0, v.fields)])
+        return v
+
+    def _holder_value(self, toks):
         fs = [None, None]
         store = sim.Tup(list(toks))
         if self.shape == "peekable":
@@ -94,6 +105,10 @@ class MacroParser:
         """How many tokens the parser has consumed."""
         if not (isinstance(pvv, Adt) and pvv.adt == "parser::Parser"):
             return None
+        if self.holder is not None:
+            pvv = S._deref(pvv.fields[0], path)
+            if not isinstance(pvv, Adt):
+                return None
         if self.shape == "indexed":
             at = pvv.fields[self.idx_field[0]]
             return at if isinstance(at, int) else None
